@@ -402,7 +402,8 @@ fn json_leaves(v: &Value, key: Option<&str>, path: &str, out: &mut Vec<(String, 
                 out.push((format!("{path}/{k}"), String::new()));
             }
         }
-        Value::String(s) => out.push((format!("{path}/{}", key.unwrap_or("")), s.clone())),
+        // U+0000, U+FFFE and U+FFFF cannot be written in XML at all, not even as references: they are shown as U+FFFD
+        Value::String(s) => out.push((format!("{path}/{}", key.unwrap_or("")), s.replace(['\0', '\u{fffe}', '\u{ffff}'], "\u{fffd}"))),
         other => out.push((format!("{path}/{}", key.unwrap_or("")), other.to_string())),
     }
 }
